@@ -239,6 +239,17 @@ Definition wstep_gen (fixed : bool) (e : env) (s : wsess) (rq : wrequest)
 Definition wstep := wstep_gen true.        (* the model: repaired behaviour *)
 Definition wstep_orig := wstep_gen false.  (* the status table before the fix: commit *)
 
+(* the messages the protocol answers: INIT on a fresh control channel, WRAP and SWITCH on an
+   established one, JOIN on a data channel.  (GET_INFO is consumed silently during the handshake;
+   any other message closes the channel without an answer — neither is an RTSP request.) *)
+Definition wanswerable (s : wsess) (c : wcmd) : bool :=
+  match c with
+  | CDataJoin _ => true
+  | CInit => negb (w_inited s)
+  | CWrap _ | CSwitch => w_inited s
+  | CGetInfo | CCtlJoin => false
+  end.
+
 (* the client goes away *)
 Definition wdisconnect (s : wsess) : wsess * list effect :=
   if w_closed s then (s, [])
